@@ -125,7 +125,7 @@ PROPS = {
 REQUIRED = {
  'C01':['transfer_conserves','transfer_others_untouched','sweep_moves_exactly','payout_conserves','applySend_total','handle_total','vesting_never_changes_supply','distributor_block_ledger','bank_send_ledger','bank_burn_ledger','tie_bank_mutators','tie_minter_before_distributor'],
  'C02':['path_independent','cadence_irrelevant','valid_of_validate','linear_exact','carry_exact','exParams_valid'],
- 'C03':['books_after_block','books_after_block_nonvacuous','books_after_block_bridge','bridge_checked_block','allSubOkB_sound','nonnegB_sound','validated_params_books'],
+ 'C03':['books_after_block','books_after_block_nonvacuous','books_after_block_bridge','bridge_checked_block','allSubOkB_sound','nonnegB_sound','validated_params_books','faithful_sub_step'],
  'C04':['share_truncation','allocation_conserves','no_main_dest_all_to_states','cumulative_allocation','payout_carry','cumulative_receipts_drift','faithful_allocation_conserves','distShares_states'],
  'C05':['withdraw_keeps_poolOk','send_keeps_poolOk','withdraw_locked_delta','rejected_noop','createPool_inv','withdrawAll_inv','sendToNew_inv','createVA_same','splitCoins_same','handle_inv','deliver_inv','backed_over_histories','c05_every_reachable_state','inv_implies_registered','inv_genesis'],
  'C06':['locked_nothing','matured_everything','withdraw_twice_total','withdraw_idempotent','query_agrees'],
